@@ -227,7 +227,15 @@ class C03(StructBase):
 
 class C02(StructBase):
     id = "C02"
-    modules = ["EG.Props.C02"]
+    modules = ["EG.Props.C02Table", "EG.Props.C02"]
+
+    def regenerate(self, log):
+        import tables_uni
+        n, nstates, changed = tables_uni.regenerate()
+        log["table_rows"] = n
+        log["table_states_reached_by_the_real_code"] = nstates
+        log["table_changed_since_last_run"] = changed
+        return None
     opsfn = staticmethod(gen.uni_ops)
     assumptions = C01.assumptions
 
